@@ -289,4 +289,124 @@ func runC05(r *an.Run) {
 				}
 			}
 		})
+
+	r.Obl("own-commit-output-descriptors", "ROLE",
+		"NewUnilateralCloseSummary looks for its own output with CommitScriptToRemote(chan type, !IsInitiator, the ToRemoteKey of the key ring derived for the REMOTE commitment from the commitment point it was given, lease expiry) and sweeps it with (LocalChanCfg.PaymentBasePoint, keyRing.LocalCommitKeyTweak), the script's success path and the maturity delay that script returned; NewLocalForceCloseSummary looks for its delayed output with CommitScriptToSelf(chan type, IsInitiator, ToLocalKey, RevocationKey, LocalChanCfg.CsvDelay, lease expiry) on the key ring derived for the LOCAL commitment at the height being closed, and sweeps it with (LocalChanCfg.DelayBasePoint, keyRing.LocalCommitKeyTweak), the delay path and that CSV delay; both record the matched output's value and script and its index in the confirmed transaction",
+		"a sign descriptor with the other base point, tweak, script path or delay does not spend the node's own output of the confirmed commitment", 6,
+		func(o *an.Obl) {
+			type want struct {
+				fn, scriptCallee string
+				scriptArgs       map[int]string
+				keyRingParty     string
+				keyDesc, path    string
+				maturity         string
+			}
+			for _, w := range []want{
+				{lw + "NewUnilateralCloseSummary", lw + "CommitScriptToRemote",
+					map[int]string{0: "$p0.ChanType", 1: "!$p0.IsInitiator", 3: "$p0.ThawHeight"},
+					"lntypes.Remote", "$p0.LocalChanCfg.PaymentBasePoint", "input.ScriptPathSuccess", "#1"},
+				{lw + "NewLocalForceCloseSummary", lw + "CommitScriptToSelf",
+					map[int]string{0: "$p0.ChanType", 1: "$p0.IsInitiator", 4: "uint32($p0.LocalChanCfg.CsvDelay)", 5: "$p0.ThawHeight"},
+					"lntypes.Local", "$p0.LocalChanCfg.DelayBasePoint", "input.ScriptPathDelay", "uint32($p0.LocalChanCfg.CsvDelay)"},
+			} {
+				f := p.Func(w.fn)
+				sc := f.Calls(an.CalleeIs(w.scriptCallee), false)
+				if !need(o, f, w.scriptCallee, sc, 1) {
+					continue
+				}
+				a := f.ArgCanon(sc[0])
+				o.Site("%s: %s%v", w.fn, w.scriptCallee, a[:len(a)-1])
+				for i, v := range w.scriptArgs {
+					if a[i] != v {
+						o.FailAt(f.ID+"#script-arg", sc[0].Where(), "%s is called with %s as argument %d, expected %s", w.scriptCallee, a[i], i, v)
+					}
+				}
+				// keys come from the key ring of the right party
+				keyArgs := []int{2}
+				keyNames := []string{".ToRemoteKey"}
+				if strings.HasSuffix(w.scriptCallee, "ToSelf") {
+					keyArgs, keyNames = []int{2, 3}, []string{".ToLocalKey", ".RevocationKey"}
+				}
+				for k, i := range keyArgs {
+					if !strings.HasPrefix(a[i], lw+"DeriveCommitmentKeys(") || !strings.Contains(a[i], ", "+w.keyRingParty+", $p0.ChanType, &$p0.LocalChanCfg, &$p0.RemoteChanCfg)") || !strings.HasSuffix(a[i], keyNames[k]) {
+						o.FailAt(f.ID+"#script-key", sc[0].Where(), "argument %d of %s is %s, expected %s of the key ring derived for %s with (Local, Remote) configs", i, w.scriptCallee, a[i], keyNames[k], w.keyRingParty)
+					}
+				}
+				if strings.HasSuffix(w.fn, "NewUnilateralCloseSummary") {
+					if !strings.Contains(a[2], "DeriveCommitmentKeys($p4, ") {
+						o.FailAt(f.ID+"#commit-point", sc[0].Where(), "the key ring is derived from %s, expected the commitment point parameter", a[2])
+					}
+				}
+				// the resolution literal
+				n := 0
+				for _, cl := range p.CompositeLitsOf(p.LookupType("lnwallet", "CommitOutputResolution")) {
+					if cl.Fn == nil || cl.Fn.ID != f.ID {
+						continue
+					}
+					n++
+					lit := cl.Node.(*ast.CompositeLit)
+					get := func(key string) ast.Expr {
+						var out ast.Expr
+						ast.Inspect(lit, func(m ast.Node) bool {
+							if kv, ok := m.(*ast.KeyValueExpr); ok && out == nil && an.Text(kv.Key) == key {
+								out = kv.Value
+							}
+							return out == nil
+						})
+						return out
+					}
+					kd, tw, md := get("KeyDesc"), get("SingleTweak"), get("MaturityDelay")
+					if kd == nil || tw == nil || md == nil {
+						o.FailAt(f.ID+"#resolution-shape", cl.Where, "the commit output resolution lacks KeyDesc / SingleTweak / MaturityDelay")
+						continue
+					}
+					o.Site("%s: KeyDesc=%s SingleTweak=%s MaturityDelay=%s", w.fn, f.Canon(kd), an.Text(tw), f.Canon(md))
+					if f.Canon(kd) != w.keyDesc {
+						o.FailAt(f.ID+"#key-desc", cl.Where, "the own output is signed with %s, expected %s", f.Canon(kd), w.keyDesc)
+					}
+					if c := f.Canon(tw); !strings.HasSuffix(c, ".LocalCommitKeyTweak") || !strings.Contains(c, ", "+w.keyRingParty+", ") {
+						o.FailAt(f.ID+"#tweak", cl.Where, "the single tweak is %s, expected LocalCommitKeyTweak of the %s key ring", c, w.keyRingParty)
+					}
+					mc := f.Canon(md)
+					if w.maturity == "#1" {
+						if !strings.HasPrefix(mc, w.scriptCallee+"(") || !strings.HasSuffix(mc, "#1") {
+							o.FailAt(f.ID+"#maturity", cl.Where, "the maturity delay is %s, expected the delay returned by %s", mc, w.scriptCallee)
+						}
+					} else if mc != w.maturity {
+						o.FailAt(f.ID+"#maturity", cl.Where, "the maturity delay is %s, expected %s", mc, w.maturity)
+					}
+					// output value and script come from the matched txOut
+					if v := get("PkScript"); v == nil || !(strings.Contains(f.Canon(v), ".PkScript")) {
+						o.FailAt(f.ID+"#out-script", cl.Where, "the recorded output script is not the matched output's")
+					}
+				}
+				if n != 1 {
+					o.FailAt(f.ID+"#resolutions", f.Where(f.Body.Pos()), "expected one commit output resolution literal in %s, found %d", w.fn, n)
+				}
+				// script path
+				ws := f.Calls(an.CalleeNamed("WitnessScriptForPath"), false)
+				okPath := false
+				for _, s := range ws {
+					if c := f.ArgCanon(s)[0]; c == w.path {
+						okPath = true
+					}
+				}
+				if !okPath {
+					o.FailAt(f.ID+"#script-path", f.Where(f.Body.Pos()), "%s does not take the witness script of %s", w.fn, w.path)
+				}
+				// the output is located by script equality
+				be := f.Calls(an.CalleeIs("bytes.Equal"), false)
+				found := false
+				for _, s := range be {
+					a := f.ArgCanon(s)
+					if (strings.Contains(a[0], w.scriptCallee+"(") && strings.HasSuffix(a[1], ".PkScript")) || (strings.Contains(a[1], w.scriptCallee+"(") && strings.HasSuffix(a[0], ".PkScript")) {
+						found = true
+						o.Site("%s: own output located by %s", w.fn, s.String())
+					}
+				}
+				if !found {
+					o.FailAt(f.ID+"#locate", f.Where(f.Body.Pos()), "%s no longer locates its output by comparing output scripts with the derived script", w.fn)
+				}
+			}
+		})
 }
